@@ -14,20 +14,19 @@
    composition for item lists under the named hypotheses out_tokens_preserved (C05),
    value_grammar_faithful (prodparser, unmodelled) and the per-lexeme stability of non-string tokens
    (numbers: C17 number_roundtrip).                                                               *)
-From CssV Require Import Base Regex Tokenizer Quote Gen.Quote QuoteFacts Roundtrip RoundtripFacts.
+From CssV Require Import Base Regex Tokenizer Quote Gen.Quote QuoteFacts QuoteStrFacts Roundtrip RoundtripFacts.
 
-(* strings re-parse to an equal object: for every REPRESENTABLE string value (QuoteFacts.rep_ok: every value
-   except (a) an escape-introducing backslash directly before a double quote - helper.string keeps the pinned
-   output for it, see string_roundtrip_dquote_refuted - and (b) a backslash before a newline character, which
-   helper.string writes as backslash + newline escape and Tokenizer.cleanstring then deletes: open finding
-   C03-backslash-before-newline), whatever text
+(* strings re-parse to an equal object: for every REPRESENTABLE string value (QuoteStrFacts.rep_okc: every value
+   except an escape-introducing backslash directly before a double quote - helper.string keeps the pinned
+   output for it, see string_roundtrip_dquote_refuted), whatever text
    follows the serialised string, in both tokenizer modes and with comments kept or dropped, the first token of
    helper.string(v) ++ follow  is a STRING token whose raw text is exactly helper.string(v), at 1:1, and
    Base._stringtokenvalue of it is v again.  Covers quotes, \n \r \f, every non-ASCII code point and backslashes:
    simple escapes kept in the value, escaped backslashes, a backslash in front of a hex digit (written with the hex
-   escape of the backslash), trailing backslashes.                                                          *)
+   escape of the backslash), a backslash in front of a newline character (hex escape of the backslash, a line
+   continuation, the newline escape: cleanstring removes exactly the continuation), trailing backslashes.     *)
 Theorem string_roundtrip : forall dc fs v follow,
-  representable v ->
+  representable_str v ->
   exists t, first_token dc fs (hstring v ++ follow) = Some t /\
             ty t = s "STRING" /\ raw t = hstring v /\ line t = 1%nat /\ col t = 1%nat /\
             stringtokenvalue (Some t) = Ok (Some v).
@@ -41,14 +40,14 @@ Theorem string_roundtrip_no_backslash : forall dc fs v follow,
             ty t = s "STRING" /\ raw t = hstring v /\ stringtokenvalue (Some t) = Ok (Some v).
 Proof.
   intros dc fs v follow Hn.
-  destruct (string_roundtrip_lemma dc fs v follow (nobs_representable v Hn)) as (t & H1 & H2 & H3 & _ & _ & H4).
+  destruct (string_roundtrip_lemma dc fs v follow (nobs_representable_str v Hn)) as (t & H1 & H2 & H3 & _ & _ & H4).
   exists t. auto.
 Qed.
 Print Assumptions string_roundtrip_no_backslash.
 
 Example string_roundtrip_example :
   let v := [97; 34; 39; 10; 13; 12; 233; 128512; 32; 47; 42]%N in
-  representable v /\
+  representable_str v /\
   hstring v = [34; 97; 92; 34; 39; 92; 97; 32; 92; 100; 32; 92; 99; 32; 233; 128512; 32; 47; 42; 34]%N /\
   option_map (fun t => (ty t, raw t, stringtokenvalue (Some t))) (first_token true true (hstring v ++ s ";}"))
   = Some (s "STRING", hstring v, Ok (Some v)).
@@ -58,13 +57,20 @@ Proof. cbv zeta. split; [|split]; vm_compute; reflexivity. Qed.
    C03-backslash-reread-as-escape) is written with the hex escape of the backslash and read back *)
 Example string_roundtrip_backslash_example :
   let v := [92; 53; 50; 99]%N in
-  representable v /\ hstring v = [34; 92; 53; 99; 32; 53; 50; 99; 34]%N /\
+  representable_str v /\ hstring v = [34; 92; 53; 99; 32; 53; 50; 99; 34]%N /\
   option_map (fun t => stringtokenvalue (Some t)) (first_token true false (hstring v ++ s " x")) = Some (Ok (Some v)).
 Proof. cbv zeta. split; [|split]; vm_compute; reflexivity. Qed.
 
+(* the former finding C03-backslash-before-newline *)
+Example string_roundtrip_backslash_newline_example :
+  let v := [97; 92; 92; 10]%N in
+  representable_str v /\
+  option_map (fun t => stringtokenvalue (Some t)) (first_token true true (hstring v ++ s ";")) = Some (Ok (Some v)).
+Proof. cbv zeta. split; vm_compute; reflexivity. Qed.
+
 (* the second half of the property (serialising the re-parsed object gives identical text), string level *)
 Theorem string_fixpoint : forall dc fs v follow t w,
-  representable v -> first_token dc fs (hstring v ++ follow) = Some t ->
+  representable_str v -> first_token dc fs (hstring v ++ follow) = Some t ->
   stringtokenvalue (Some t) = Ok (Some w) -> hstring w = hstring v.
 Proof. exact string_fixpoint_lemma. Qed.
 Print Assumptions string_fixpoint.
@@ -75,7 +81,7 @@ Print Assumptions string_fixpoint.
    writes quote backslash backslash quote quote (the output the pinned test test_value.py:411 asserts); the first
    token of that is the string quote backslash backslash quote with the value backslash.                  *)
 Theorem string_roundtrip_dquote_refuted : forall fs,
-  exists src v, ~ representable v /\
+  exists src v, ~ representable_str v /\
     option_map (fun t => (ty t, stringtokenvalue (Some t))) (first_token true fs src)
       = Some (s "STRING", Ok (Some v)) /\
     exists t, first_token true fs (hstring v) = Some t /\ raw t <> hstring v /\
